@@ -92,6 +92,10 @@ def run(chk, repo, tier):
               and 'to_dict' in c.methods and 'from_dict' in c.methods]
     check_h2(chk, O11, repo, spairs)
     run_o12_o13(chk, repo)
+    run_o14(chk, repo)
+    from rules.C10 import run_d1
+    run_d1(chk, repo, chk.rule('D1', 'symbol accessors (free_symbols, subs) cover every expression field through the matching '
+                                     'accessor', floor=10))
 
     # ---------------------------------------------------------------- O1
     for acc in ('amounts', 'compartment_names', 'compartmental_matrix', 'zero_order_inputs'):
@@ -751,3 +755,47 @@ def run_o12_o13(chk, repo):
                       'a compartment without any flow (an AUC integrator with only a zero-order input, a compartment left '
                       'isolated by remove_flow) is dropped on deserialisation', line=fd.node.lineno,
                       witness='from_dict(to_dict(cs)) != cs for a system with an isolated compartment')
+
+
+def run_o14(chk, repo):
+    """the four vector / matrix views of a system (amounts, compartment_names, compartmental_matrix, zero_order_inputs) list
+    the compartments in one common order: eqs = matrix * amounts + inputs pairs them by position"""
+    O14 = chk.rule('O14', 'CompartmentalSystem: amounts, compartment_names, compartmental_matrix and zero_order_inputs all '
+                          'enumerate the compartments with the same ordering function', floor=4)
+    sm = repo.module('pharmpy.model.statements')
+    cs = sm.classes.get('CompartmentalSystem')
+    if cs is None:
+        raise AnalysisError('CompartmentalSystem not found')
+    views = {}
+    for name in ('amounts', 'compartment_names', 'compartmental_matrix', 'zero_order_inputs'):
+        f = cs.methods.get(name)
+        if f is None:
+            raise AnalysisError(f'CompartmentalSystem.{name} not found')
+        # the enumeration the result is built from: calls of ordering methods of self, or other sources of compartments
+        srcs = set()
+        for c in calls_in(f.node):
+            if isinstance(c.func, ast.Attribute) and isinstance(c.func.value, ast.Name) and c.func.value.id == 'self' \
+                    and c.func.attr.startswith('_order'):
+                srcs.add(f'self.{c.func.attr}()')
+            elif dotted(c.func) in ('sorted', '_comps') or (isinstance(c.func, ast.Attribute) and c.func.attr in ('nodes',)):
+                srcs.add(unparse(c)[:50])
+        for a_ in ast.walk(f.node):
+            if isinstance(a_, ast.Attribute) and a_.attr == 'nodes' and 'self._g' in unparse(a_):
+                srcs.add('self._g.nodes')
+            if isinstance(a_, ast.Attribute) and isinstance(a_.value, ast.Name) and a_.value.id == 'self' \
+                    and a_.attr in ('amounts', 'compartment_names') and a_.attr != name:
+                srcs.add(f'self.{a_.attr}')       # derived from another view
+        views[name] = srcs
+        chk.instance(O14, f'CompartmentalSystem.{name}: compartments enumerated by {sorted(srcs)}')
+    base = {s_ for v in views.values() for s_ in v if s_.startswith('self._order')}
+    if len(base) != 1:
+        raise AnalysisError(f'O14: ordering function of the system views not recognised ({views})')
+    for name, srcs in views.items():
+        other = {s_ for s_ in srcs if not s_.startswith('self._order') and not s_.startswith('self.amounts')
+                 and not s_.startswith('self.compartment_names')}
+        if other or not srcs:
+            chk.violation(O14, sm.rel, f'CompartmentalSystem.{name}', f'enumerates by {sorted(srcs)}',
+                          f'{name} lists the compartments in another order than the other views ({sorted(base)}): the rows of '
+                          f'eqs pair an amount with the wrong input / matrix row', line=cs.methods[name].node.lineno,
+                          witness='first order absorption + zero order input into CENTRAL: the input lands in dA_DEPOT/dt, '
+                                  'solve_ode_system solves another system')
